@@ -10,8 +10,8 @@ from .model import Program, AnchorError
 
 VERIF = extract.VERIF
 KNOWN = os.path.join(VERIF, "known_findings.json")
-EVID = os.path.join(VERIF, "evidence")
-REPLAY = os.path.join(VERIF, "evidence", "replay")
+EVID = os.environ.get("ABSY_EVIDENCE_DIR") or os.path.join(VERIF, "evidence")
+REPLAY = os.path.join(EVID, "replay")
 
 
 class Ctx:
